@@ -126,6 +126,8 @@ impl ZoneStore for ZoneApex {
 
     fn read(self: Arc<Self>) -> Box<dyn ReadableZone> {
         let (version, marker) = self.versions().read().current().clone();
+        #[cfg(feature = "verif-hooks")]
+        crate::verif_hooks::pause("zonetree:read:after-version-sampled");
         Box::new(ReadZone::new(self, version, marker))
     }
 
@@ -141,6 +143,8 @@ impl ZoneStore for ZoneApex {
     > {
         Box::pin(async move {
             let lock = self.update_lock.clone().lock_owned().await;
+            #[cfg(feature = "verif-hooks")]
+            crate::verif_hooks::pause("zonetree:write:after-lock");
             let version = self.versions().read().current().0.next();
             let zone_versions = self.versions.clone();
             Box::new(WriteZone::new(self, lock, version, zone_versions))
@@ -407,5 +411,75 @@ impl NodeChildren {
         for child in self.children.read().iter() {
             (op)(walk.clone(), child)
         }
+    }
+}
+
+//------------ Verification hooks --------------------------------------------
+
+/// The version bookkeeping of one versioned item of a zone.
+#[cfg(feature = "verif-hooks")]
+#[derive(Clone, Debug)]
+pub struct VerifItem {
+    /// Labels from the apex down to the node, each in wire format.
+    pub path: alloc::vec::Vec<alloc::vec::Vec<u8>>,
+
+    /// What the item is: the record type of an RRset or "special".
+    pub what: alloc::string::String,
+
+    /// The versions recorded, oldest first, with whether each holds a value.
+    pub versions: alloc::vec::Vec<(u32, bool)>,
+}
+
+#[cfg(feature = "verif-hooks")]
+impl NodeRrsets {
+    fn verif_collect(
+        &self,
+        path: &[alloc::vec::Vec<u8>],
+        out: &mut alloc::vec::Vec<VerifItem>,
+    ) {
+        use alloc::string::ToString;
+        for (rtype, rrset) in self.rrsets.read().iter() {
+            out.push(VerifItem {
+                path: path.to_vec(),
+                what: rtype.to_string(),
+                versions: rrset.rrsets.verif_versions(),
+            });
+        }
+    }
+}
+
+#[cfg(feature = "verif-hooks")]
+impl NodeChildren {
+    fn verif_collect(
+        &self,
+        path: &mut alloc::vec::Vec<alloc::vec::Vec<u8>>,
+        out: &mut alloc::vec::Vec<VerifItem>,
+    ) {
+        for (label, node) in self.children.read().iter() {
+            path.push(label.as_slice().to_vec());
+            node.rrsets.verif_collect(path, out);
+            out.push(VerifItem {
+                path: path.clone(),
+                what: "special".into(),
+                versions: node.special.read().verif_versions(),
+            });
+            node.children.verif_collect(path, out);
+            path.pop();
+        }
+    }
+}
+
+#[cfg(feature = "verif-hooks")]
+impl ZoneApex {
+    /// Returns the current version and the bookkeeping of every item.
+    ///
+    /// Takes the same read locks a reader would, one node at a time.
+    pub fn verif_inspect(&self) -> (u32, alloc::vec::Vec<VerifItem>) {
+        let current = self.versions().read().current().0.verif_int();
+        let mut out = alloc::vec::Vec::new();
+        self.rrsets.verif_collect(&[], &mut out);
+        let mut path = alloc::vec::Vec::new();
+        self.children.verif_collect(&mut path, &mut out);
+        (current, out)
     }
 }
